@@ -50,11 +50,13 @@ def plan(tier, seed):
     cases = []
     cm = ["poi1", "poi2", "poi3c", "onoff", "srcr"]
     f3 = ["M1", "M2", "M3", "M4"] if tier == "quick" else ["M1", "M2", "M3", "M4", "M5", "M6"]
-    bes = ["numpy", "pytorch"] if tier == "quick" else ["numpy", "pytorch", "jax", "tensorflow"]
+    bes = ["numpy", "pytorch", "jax"] if tier == "quick" else ["numpy", "pytorch", "jax", "tensorflow"]
     for be in bes:
         for opt in ("scipy", "minuit"):
             for mn in cm + f3:
                 if be in ("jax", "tensorflow") and mn in ("M4", "M5", "M6", "poi3c"):
+                    continue
+                if tier == "quick" and be == "jax" and mn not in ("onoff", "srcr", "M1"):
                     continue
                 if tier == "quick" and be == "pytorch" and mn in f3[2:]:
                     continue
